@@ -58,7 +58,10 @@ def iso(ts_us, tz_minutes):
 
 
 CERT_KINDS = [("valid", 6), ("rogue", 2), ("other-server", 2), ("tamper-expiry", 2), ("tamper-subject", 1.5), ("tamper-sig", 1.5),
-              ("swap-sig", 1.5), ("unconfigured-gm", 1)]
+              ("swap-sig", 1.5), ("unconfigured-gm", 1),
+              # a genuine certificate followed by an edited copy carrying the same signature (the client has then already
+              # verified that signature once)
+              ("genuine-then-edited-expiry", 1.5), ("genuine-then-edited-subject", 1.5)]
 
 
 def gen_certs(ch, lab, nservers, ngm, horizon):
@@ -138,6 +141,10 @@ def gen_gm(seed, tier, focus):
             "ops": ops, "faults": []}
 
 
+def _aslist(x):
+    return x if isinstance(x, list) else [x]
+
+
 class Certs(object):
     """Builds signed certificates (independently of allmydata.grid_manager) and decides permission."""
     def __init__(self, ngm, server_keys):
@@ -170,6 +177,16 @@ class Certs(object):
             body0, sig = self._sign(gm, self.subject(si), (int(EPOCH) - 365 * 86400) * 10 ** 6, 0)
             body = json.dumps({"expires": iso(spec["expires_us"], spec["tz"]), "public_key": self.subject(si), "version": 1},
                               separators=(",", ":"), sort_keys=True).encode("utf-8")
+        elif kind == "genuine-then-edited-expiry":
+            body0, sig = self._sign(gm, self.subject(si), (int(EPOCH) - 3 * 86400) * 10 ** 6, 0)       # genuine, long expired
+            body = json.dumps({"expires": iso(spec["expires_us"], spec["tz"]), "public_key": self.subject(si), "version": 1},
+                              separators=(",", ":"), sort_keys=True).encode("utf-8")
+            return [{"certificate": body0.decode("utf-8"), "signature": b32(sig)}, {"certificate": body.decode("utf-8"), "signature": b32(sig)}]
+        elif kind == "genuine-then-edited-subject":
+            other = (si + 1 + spec["x"] % max(1, nsrv - 1)) % nsrv
+            body0, sig = self._sign(gm, self.subject(other), spec["expires_us"], spec["tz"])           # genuine, names another server
+            body = body0.replace(self.subject(other).encode(), self.subject(si).encode())
+            return [{"certificate": body0.decode("utf-8"), "signature": b32(sig)}, {"certificate": body.decode("utf-8"), "signature": b32(sig)}]
         elif kind == "tamper-subject":
             other = (si + 1 + spec["x"] % max(1, nsrv - 1)) % nsrv
             body0, sig = self._sign(gm, self.subject(other), spec["expires_us"], spec["tz"])
@@ -233,7 +250,7 @@ def exec_gm(case):
         def ann_of(i, specs):
             s = g.servers[i]
             ann = {"anonymous-storage-FURL": "pb://%s@nowhere/fake-%d" % (b32(s.tubid), i), "nickname": s.name,
-                   "grid-manager-certificates": [certs.build(i, sp) for sp in specs]}
+                   "grid-manager-certificates": [cd for sp in specs for cd in _aslist(certs.build(i, sp))]}
             if cfg["servers"][i]["seed_in_ann"]:
                 ann["permutation-seed-base32"] = b32(hashlib.sha256(b"pseed-%d" % i).digest())
             return ann
